@@ -10,6 +10,7 @@ mod path_unit;
 mod varname_unit;
 mod total_unit;
 mod cssout_unit;
+mod pscore_unit;
 
 pub struct Outcome {
     pub found: bool,
@@ -54,6 +55,8 @@ fn main() {
         ("VARNAME", "run") => varname_unit::run(&input.unwrap()),
         ("CSSOUT", "search") => cssout_unit::search(),
         ("CSSOUT", "run") => cssout_unit::run(&input.unwrap()),
+        ("PSCORE", "search") => pscore_unit::search(),
+        ("PSCORE", "run") => pscore_unit::run(&input.unwrap()),
         ("TOTAL", "search") => total_unit::search(),
         ("TOTAL", "run") => total_unit::run(&input.unwrap()),
         _ => {
